@@ -10,6 +10,7 @@ import (
 	"crypto/tls"
 	"fmt"
 	"net/http"
+	"strings"
 
 	"github.com/pkg/errors"
 	"github.com/ysugimoto/falco/v2/interpreter/exception"
@@ -61,15 +62,17 @@ func SendRequest(req *Request) (*Response, error) {
 type headerKeyStore map[string]struct{}
 
 // Distinguish whether header is actually assigned or not
+// Header names are case-insensitive, so is the store: a header set as "Foo" and
+// unset as "fOO" is the same header.
 func (h headerKeyStore) IsAssigned(name string) bool {
-	_, v := h[name]
+	_, v := h[strings.ToLower(name)]
 	return v
 }
 
 func (h headerKeyStore) Assign(name string) {
-	h[name] = struct{}{}
+	h[strings.ToLower(name)] = struct{}{}
 }
 
 func (h headerKeyStore) Unassign(name string) {
-	delete(h, name)
+	delete(h, strings.ToLower(name))
 }
